@@ -66,3 +66,14 @@ def weighted(rng: random.Random, pairs):
         if x < acc:
             return item
     return pairs[-1][0]
+
+
+def deep(r) -> int:
+    """Length multiplier: in the thorough tier (VERIF_DEEP=1, set by the runner for its workers and for the
+    determinism resample) half of the runs - decided by the run's own stream - are generated several times
+    longer.  The trace stores everything, so replay does not depend on the tier."""
+    import os
+
+    if os.environ.get("VERIF_DEEP") == "1" and r.random() < 0.5:
+        return r.choice([2, 3, 4])
+    return 1
